@@ -123,7 +123,14 @@ class Plan:
             if not self.crash:
                 ops.append({"op": "trace_take"})
             first = len(ops)
-            if k == "login":
+            if k == "restart":
+                # clean stop and restart of both services inside this process: managers closed and
+                # reopened on the same directory, all connections dropped
+                ops.append({"op": "restart"})
+                opened.clear()
+                ops += [{"op": "lmtp_open", "conn": "l0"}, {"op": "send", "conn": "l0", "data": "LHLO x\r\n", "until": "lmtp:1"},
+                        {"op": "lmtp_open", "conn": "l1", "default_folder": "D"}, {"op": "send", "conn": "l1", "data": "LHLO x\r\n", "until": "lmtp:1"}]
+            elif k == "login":
                 conn = "c_" + st["u"]
                 if conn not in opened:
                     ops.append({"op": "open", "conn": conn})
@@ -173,7 +180,7 @@ def norm_stmt(fname, sql):
     s = re.sub(r"\s+", " ", sql).strip()
     up = s.upper()
     store = fname[:-3] if fname.endswith(".db") else fname
-    if up in ("BEGIN", "COMMIT", "ROLLBACK"):
+    if up in ("BEGIN", "BEGIN IMMEDIATE", "COMMIT", "ROLLBACK"):
         return store, up
     w = up.split(" ", 1)[0]
     if w in ("SELECT", "PRAGMA"):
@@ -235,7 +242,12 @@ class ModelSide:
         st = self.script[i]
         k = st["k"]
         T = "0 0 0 0 0"
+        if k == "restart":
+            self.opened.clear()      # the connection cache is gone: the next use of a store is a GetUserDB
+            self.sel.clear()
+            return []
         if k == "login":
+            self.sel[st["u"]] = 0    # a new session has nothing selected
             if st["u"] in self.opened:
                 return []            # cached connection: GetUserDB issues nothing
             self.opened.add(st["u"])
@@ -324,6 +336,7 @@ def digest_trace(script, plan, res):
     ms = ModelSide(script, plan.msgs)
     per_user, step_index = {}, {}
     dump_before = {}
+    plan.events = []
     for i, st in enumerate(script):
         first, last = plan.marks[i]
         d7 = obs[last]
@@ -352,6 +365,17 @@ def digest_trace(script, plan, res):
                 continue
             cur = users.get(store, store)
             labs.setdefault(cur, []).append(lab)
+        if st["k"] in ("login", "restart"):
+            # GetUserDB on a store whose mailbox table is not empty is the identity (c07_reopen_changes_nothing):
+            # complete mailbox rows (incl. uid_validity, uid_next), links, messages, subscriptions
+            for uu, b in dump_before.items():
+                a = after.get(uu)
+                if (b.get("mailboxes") or []) and (st["k"] == "restart" or uu == st.get("u")):
+                    for key in ("mailboxes", "links", "messages", "subs", "schema"):
+                        if (a or {}).get(key) != b.get(key):
+                            plan.events.append((i, uu, "%s of the store of %s changed across %s: before %r, after %r" % (
+                                key, uu, "a clean stop and restart" if st["k"] == "restart" else "a LOGIN (GetUserDB)", b.get(key), (a or {}).get(key))))
+                            break
         cops = ms.cops(i, dump_before)
         if st["k"] in NEEDS_SEL and ms.sel.get(st["u"], 0) == 0:
             cops = []            # "No mailbox selected": not an operation of the model
@@ -411,6 +435,11 @@ def gen_script(rng, n, users=("u", "v"), crashy=False):
             cnt[u] += 1
     while len(sc) < n:
         u = rng.choice(users)
+        if len(sc) > 3 and rng.random() < 0.07:
+            sc.append({"k": "restart"})        # clean stop + restart: every store is reopened by its next use
+            known.clear()
+            seld.clear()
+            continue
         r = rng.random()
         if r < 0.16:
             rc = [u] if rng.random() < 0.5 else list(users)
@@ -463,7 +492,8 @@ def gen_script(rng, n, users=("u", "v"), crashy=False):
             sc.append({"k": "rename", "u": u, "old": old, "new": new})
             names[u].add(new)
         elif r < 0.95:
-            sc.append({"k": "delete", "u": u, "name": rng.choice(sorted(names[u]))})
+            # default mailboxes are deleted too (Spam can be; Trash/Drafts/Sent are refused; a renamed Sent can be)
+            sc.append({"k": "delete", "u": u, "name": rng.choice(sorted(names[u]) + ["Spam", "Trash"])})
         else:
             nm = rng.choice(["A", "INBOX", "Q"])
             sc.append({"k": rng.choice(["subscribe", "subscribe", "unsubscribe"]), "u": u, "name": nm})
@@ -490,6 +520,28 @@ FIXED_CRASH_SCRIPTS = [
      {"k": "rename", "u": "w", "old": "INBOX", "new": "old"},
      {"k": "delete", "u": "w", "name": "z/b"},
      {"k": "deliver", "rcpts": ["w"], "msg": "S", "extra": 0, "folder": "D"}],
+    # acknowledged removal / renaming of DEFAULT mailboxes and subscriptions must survive a clean stop +
+    # restart and every later kill: DELETE Spam (OK), DELETE Trash / Drafts (refused), RENAME Sent x then
+    # DELETE x, CREATE + DELETE of other names, SUBSCRIBE / UNSUBSCRIBE, restart, more work
+    [{"k": "login", "u": "u"},
+     {"k": "deliver", "rcpts": ["u"], "msg": "S", "extra": 0},
+     {"k": "delete", "u": "u", "name": "Spam"},
+     {"k": "delete", "u": "u", "name": "Trash"},
+     {"k": "delete", "u": "u", "name": "Drafts"},
+     {"k": "rename", "u": "u", "old": "Sent", "new": "x"},
+     {"k": "delete", "u": "u", "name": "x"},
+     {"k": "create", "u": "u", "name": "A"},
+     {"k": "delete", "u": "u", "name": "A"},
+     {"k": "create", "u": "u", "name": "B"},
+     {"k": "subscribe", "u": "u", "name": "B"},
+     {"k": "subscribe", "u": "u", "name": "INBOX"},
+     {"k": "unsubscribe", "u": "u", "name": "B"},
+     {"k": "restart"},
+     {"k": "login", "u": "u"},
+     {"k": "append", "u": "u", "folder": "INBOX", "flags": [], "msg": "S", "extra": 0},
+     {"k": "deliver", "rcpts": ["u", "v"], "msg": "S", "extra": 0},
+     {"k": "restart"},
+     {"k": "deliver", "rcpts": ["u"], "msg": "S", "extra": 0}],
 ]
 
 
@@ -519,6 +571,9 @@ def trace_suite(chk, scripts, label="trace", base=None):
             chk.notes.append("%s scenario %d skipped (harness): %s" % (label, si, trouble[:200]))
             chk.cov["harness_trouble"] = chk.cov.get("harness_trouble", 0) + 1
             continue
+        for (step, uu, text) in plan.events[:3]:
+            chk.violation("clean restart / reopen is not the identity: %s" % text[:600],
+                          {"suite": "trace", "script": sc[:step + 1], "user": uu, "step": step})
         for u, steps in sorted(per_user.items()):
             nm = "r_%d_%s" % (si, u)
             defs += "Definition %s := Eval vm_compute in eval_trace %s.\n" % (nm, C.coq_list(steps))
@@ -666,15 +721,21 @@ def run_crash_point(script, K, base):
     ops = [{"op": "use_datadir", "dir": data},
            {"op": "lmtp_open", "conn": "l0"}, {"op": "send", "conn": "l0", "data": "LHLO x\r\n", "until": "lmtp:1"}]
     idx = {}
+    # first every user's LOGIN (= the restarted server's first GetUserDB for that store) and a
+    # SELECT INBOX, then a second dump: what did the reopen do to the stores?
     for u in wl_users:
         c = "c_" + u
-        st = by_user.get(u) or {}
-        walk = []
         ops.append({"op": "open", "conn": c})
         idx[(u, "login")] = len(ops)
         ops.append({"op": "send", "conn": c, "data": "g LOGIN %s pw\r\n" % addr(u), "until": "tag:g"})
         idx[(u, "inbox0")] = len(ops)
         ops.append({"op": "send", "conn": c, "data": "i SELECT INBOX\r\n", "until": "tag:i"})
+    idx["dump_after_open"] = len(ops)
+    ops.append({"op": "dump7"})
+    for u in wl_users:
+        c = "c_" + u
+        st = by_user.get(u) or {}
+        walk = []
         for mrow in (st.get("mailboxes") or []):
             name = mrow[2]
             if " " in name or not name:
@@ -762,6 +823,20 @@ def judge_crash(chk, script, rec, tokens_by_msgshape):
         bad.append(("opens", "*", "the restarted process died during the audit: %s" % r2.get("stderr", "")[-200:]))
         return bad
     obs = r2["obs"]
+    # the first GetUserDB after the restart must not change a store whose mailbox table is not
+    # empty (c07_reopen_changes_nothing): complete mailbox rows incl. uid_validity / uid_next,
+    # links, messages, subscriptions, schema
+    d7b = obs[idx["dump_after_open"]] if idx["dump_after_open"] < len(obs) else {}
+    by_user2 = stores_by_user(d7b) if "stores" in d7b else {}
+    rec["by_user2"] = by_user2
+    for u, b in sorted(by_user.items()):
+        if not (b.get("mailboxes") or []) or u not in wl_users:
+            continue
+        a = by_user2.get(u) or {}
+        for key in ("mailboxes", "links", "messages", "subs", "schema"):
+            if a.get(key) != b.get(key):
+                bad.append(("reopen", u, "the first open of the store of %s after the restart changed its %s: before %r, after %r" % (u, key, b.get(key), a.get(key))))
+                break
     if any(o.get("how") == "timeout" for o in obs):
         # a reply that did not arrive within the harness timeout (loaded machine) is not evidence
         chk.cov["audit_timeouts"] = chk.cov.get("audit_timeouts", 0) + 1
@@ -833,13 +908,17 @@ def crash_suite(chk, script, Ks, base, label):
                         break
         hist[u] = hs
     defs, names, meta = "", [], []
+    verdicts = {}
     for ri, rec in enumerate(recs):
+        verdicts[ri] = judge_crash(chk, script, rec, None)      # also fills rec["by_user2"]
         if "d7" not in rec:
             continue
         by_user = stores_by_user(rec["d7"])
+        by_user2 = rec.get("by_user2")
         for u in hist:
             nm = "c_%d_%s" % (ri, u)
-            defs += "Definition %s := Eval vm_compute in eval_crash %s %s.\n" % (nm, C.coq_list(hist[u]), coq_oview(by_user.get(u)))
+            ov2 = coq_oview(by_user2.get(u)) if by_user2 else "(mkOV (-3) [] [] [] [])"
+            defs += "Definition %s := Eval vm_compute in eval_crash %s %s %s.\n" % (nm, C.coq_list(hist[u]), coq_oview(by_user.get(u)), ov2)
             names.append(nm)
             meta.append((ri, u))
     matches = {}
@@ -854,13 +933,13 @@ def crash_suite(chk, script, Ks, base, label):
             if not m:
                 chk.broken_obligation("could not read %s from Coq output: %r" % (nm, txt[:200]), {})
                 continue
-            pairs = parse_nums(m.group(1))
-            matches[(ri, u)] = (list(zip(pairs[0::2], pairs[1::2])), parse_nums(m.group(2)))
+            tr = parse_nums(m.group(1))
+            matches[(ri, u)] = (list(zip(tr[0::3], tr[1::3], tr[2::3])), parse_nums(m.group(2)))
     for ri, rec in enumerate(recs):
         chk.cov["crash_points"] = chk.cov.get("crash_points", 0) + 1
         if rec["killed"]:
             chk.cov["crash_points_killed"] = chk.cov.get("crash_points_killed", 0) + 1
-        bad = judge_crash(chk, script, rec, None)
+        bad = verdicts[ri]
         payload = {"suite": "crash", "script": script, "K": rec["K"], "acks": [a.get("id") for a in rec["acks"]]}
         # acknowledged steps per user (script index -> position among the user's model ops)
         acked_ids = set()
@@ -893,13 +972,14 @@ def crash_suite(chk, script, Ks, base, label):
                 chk.broken_obligation("correspondence crash no longer checks: the store of %s recovered after a kill before I/O call %d equals none of the crash states of Model/Micro.v (the audit found no property violation)" % (u, rec["K"]),
                                       dict(payload, user=u, store=by_user_safe(rec, u)))
                 continue
-            good = [k for (k, c) in ks if k >= need]
+            good = [k for (k, c, a2) in ks if k >= need]
             if not good:
-                chk.violation("acknowledged work lost: the store of %s recovered after a kill before I/O call %d matches only model crash points %r, all before micro-step %d where the last acknowledged operation completed" % (u, rec["K"], [k for k, _ in ks], need),
+                chk.violation("acknowledged work lost: the store of %s recovered after a kill before I/O call %d matches only model crash points %r, all before micro-step %d where the last acknowledged operation completed" % (u, rec["K"], [k for k, _, _ in ks], need),
                               dict(payload, user=u))
-            for (k, c) in ks:
-                if c:
-                    cls_seen.add((u, c))
+            elif not any(a2 for (k, c, a2) in ks if k >= need) and not ubad:
+                chk.cov["disagreements_checked"] += 1
+                chk.broken_obligation("correspondence crash no longer checks: after the first GetUserDB of the restarted server the store of %s (kill before I/O call %d) differs from the model's state after COpen (the audit found no property violation)" % (u, rec["K"]),
+                                      dict(payload, user=u, store_after_open=(rec.get("by_user2") or {}).get(u)))
         # no listed finding class: whatever the audit saw is a violation
         for kind, u, text in bad:
             chk.violation("after a kill before storage I/O call %d of the workload: %s" % (rec["K"], text), dict(payload, user=u, kind=kind))
@@ -941,7 +1021,8 @@ def run(chk):
                 continue
             total_points += n
             if quick:
-                Ks = sorted(set([1, 2, n, n + 1] + [rng.randint(1, n) for _ in range(30)]))
+                Ks = sorted(set([1, 2, n, n + 1] + [rng.randint(1, n) for _ in range(18)]
+                                + [rng.randint(max(1, n // 2), n) for _ in range(12)]))
             else:
                 Ks = list(range(1, n + 2))
             crash_suite(chk, sc, Ks, base, "crash%d" % ci)
